@@ -20,11 +20,11 @@ RULE = (
 )
 ASSUMPTIONS = [
     "TWAP arithmetic is floating point in the code: compared at 1e-9 relative; acceptance decisions within 1e-7 of the limit are not asserted",
-    "the oSQTH/WETH pool is the standard one (token0 = WETH, quote = WETH); LP token amounts are taken from the pool market's own position view (C07's subject)",
+    "the oSQTH/WETH pool has token0 = WETH and is quoted in WETH or in oSQTH; LP token amounts are the closed forms of the position's current liquidity at the pool price",
     "completeness (margin 0.1%) is asserted for open_deposit_mint, burn_and_withdraw and withdraw_uni_position only when the wallet covers the operation",
 ]
 MIN_NONTRIVIAL = {"quick": 3000, "thorough": 60000}
-REQUIRED_LABELS = ["mint.accepted", "mint.rejected.unsafe", "withdraw.accepted", "withdraw.rejected", "lp.deposited", "lp.withdraw.accepted", "liquidation.plain.half", "liquidation.plain.full", "liquidation.lp_first", "liquidation.capped", "twap.short_window", "twap.full_window", "safe.not_liquidated", "dust.rejected", "lp.pending", "twap.coarse_rows", "lp.read", "path.eth_flat", "ratio.view", "open.by_rate"]
+REQUIRED_LABELS = ["mint.accepted", "mint.rejected.unsafe", "withdraw.accepted", "withdraw.rejected", "lp.deposited", "lp.withdraw.accepted", "liquidation.plain.half", "liquidation.plain.full", "liquidation.lp_first", "liquidation.capped", "twap.short_window", "twap.full_window", "safe.not_liquidated", "dust.rejected", "lp.pending", "twap.coarse_rows", "lp.read", "path.eth_flat", "ratio.view", "open.by_rate", "pool_quote.osqth"]
 
 D = Decimal
 SCALE = D(10000)
@@ -85,7 +85,7 @@ def st_case(draw):
                  [b, "open_lp", 0, draw(st.sampled_from(["0.4", "0.5", "1"])), draw(st.sampled_from(["0.9", "0.999", "1.001"]))]]
         at = next((j for j, o in enumerate(ops) if o[0] > b), len(ops))
         ops[at:at] = motif
-    return {"path_mode": path_mode, "rows": rows, "ops": ops, "weth": draw(st.sampled_from(["10", "100"])), "osqth": draw(st.sampled_from(["0", "50", "2000"])), "step": draw(st.sampled_from([1, 1, 1, 2, 5]))}
+    return {"quote": draw(st.sampled_from(["weth", "weth", "osqth"])), "path_mode": path_mode, "rows": rows, "ops": ops, "weth": draw(st.sampled_from(["10", "100"])), "osqth": draw(st.sampled_from(["0", "50", "2000"])), "step": draw(st.sampled_from([1, 1, 1, 2, 5]))}
 
 
 class W:
@@ -98,7 +98,9 @@ class W:
         self.weth, self.osqth = TokenInfo("weth", 18), TokenInfo("osqth", 18)
         self.actions = []
         self.broker = Broker(record_action_callback=self.actions.append)
-        self.uni = UniLpMarket(MarketInfo("Uni"), UniV3Pool(self.weth, self.osqth, 0.3, self.weth))
+        # the oSQTH/WETH pool market may be quoted in either token (WETH is the usual choice)
+        self.q_osqth = case.get("quote") == "osqth"
+        self.uni = UniLpMarket(MarketInfo("Uni"), UniV3Pool(self.weth, self.osqth, 0.3, self.osqth if self.q_osqth else self.weth))
         self.sq = SqueethMarket(MarketInfo("Squeeth", MarketTypeEnum.squeeth), self.uni)
         self.broker.add_market(self.uni)
         self.broker.add_market(self.sq)
@@ -120,6 +122,8 @@ class W:
         r = self.case["rows"][i]
         ts = self.idx[i]
         price = D(r["osq"])  # WETH per oSQTH: the pool's price with quote = WETH
+        if self.q_osqth:
+            price = 1 / price
         tick = self.uni.price_to_tick(price)
         self.uni.set_market_status(UniswapMarketStatus(timestamp=ts, data=pd.Series([D(0), D(0), D(10**24), tick, price], index=["inAmount0", "inAmount1", "currentLiquidity", "closeTick", "price"])), price=None)
         self.sq.set_market_status(MarketStatus(ts.to_pydatetime(), None), None)
@@ -269,7 +273,8 @@ def body(case, ctx: Ctx):
                 elif k == "lp_add":
                     sp = 60
                     lo_t = (w.tick // sp + op[2]) * sp
-                    pos, _, _, _ = w.uni.add_liquidity_by_tick(lo_t, lo_t + op[3] * sp, D(op[4]) * 10, D(op[4]))
+                    b_, q_ = (D(op[4]), D(op[4]) * 10) if w.q_osqth else (D(op[4]) * 10, D(op[4]))  # (base, quote) = oSQTH x 10, WETH
+                    pos, _, _, _ = w.uni.add_liquidity_by_tick(lo_t, lo_t + op[3] * sp, b_, q_)
                     if pos not in w.lps:
                         w.lps.append(pos)
                     continue
@@ -431,6 +436,7 @@ def body(case, ctx: Ctx):
         if not any(c[4] == "edge" for c in pre_ref.values()):
             ctx.check(abs(float(post[2] - pre[2]) - exp_o) <= 1e-8 * max(exp_o, 1.0), "liquidation.wallet_osqth", lambda: f"bar {i}: update() changed wallet oSQTH by {post[2] - pre[2]}, excess of redeemed LPs is {exp_o}", case)
     labels.add(f"path.{case.get('path_mode', 'mixed')}")
+    labels.add(f"pool_quote.{case.get('quote', 'weth')}")
     ctx.case(case, nontrivial, sorted(labels))
 
 
